@@ -16,6 +16,7 @@ pub trait HApi {
     fn hash_kind() -> usize;
     fn data_len(cap: usize) -> usize;
     fn call(bytes: &mut [u8], op: &Op) -> String;
+    fn session(bytes: &mut [u8], ops: &[Op]) -> Vec<String>;
     fn hash_of(v: i128) -> u64;
 }
 
@@ -39,6 +40,28 @@ macro_rules! hset_api {
                 let mut h = DefaultHasher::new();
                 <$V as Num>::from_i(v).hash(&mut h);
                 h.finish()
+            }
+            fn session(bytes: &mut [u8], ops: &[Op]) -> Vec<String> {
+                let mut s = HashSetMut::<$V>::from_bytes_mut(bytes);
+                let mut out = vec![];
+                for op in ops {
+                    let v = |i: usize| <$V as Num>::from_i(op.args[i]);
+                    out.push(match op.name {
+                        "init" => {
+                            s.initialize(op.args[0] as u32);
+                            "-".to_string()
+                        }
+                        "ins" => s.insert(v(0)).to_string(),
+                        "rem" => s.remove(&v(0)).to_string(),
+                        "has" | "rhas" => s.contains(&v(0)).to_string(),
+                        "size" | "rsize" => s.size().to_string(),
+                        "cap" | "rcap" => s.capacity().to_string(),
+                        "full" | "rfull" => s.is_full().to_string(),
+                        "empty" | "rempty" => s.is_empty().to_string(),
+                        other => panic!("op {other} not possible in a session"),
+                    });
+                }
+                out
             }
             fn call(bytes: &mut [u8], op: &Op) -> String {
                 let v = |i: usize| <$V as Num>::from_i(op.args[i]);
@@ -230,12 +253,16 @@ impl<A: HApi> Sut for HSut<A> {
         }
         v
     }
-    fn random_op(&self, rng: &mut Rng, state: &[u8]) -> Op {
+    fn random_op(&self, rng: &mut Rng, state: &[u8], phase: usize) -> Op {
         let d = hdecode::<A>(state);
         let x = self.vals[rng.below(self.vals.len() as u64) as usize];
         let r = rng.below(100);
         let fullish = d.size * 10 >= d.cap * 8;
-        let ins_p = if fullish { 35 } else { 55 };
+        let ins_p = match phase {
+            0 => 72,
+            2 => 12,
+            _ => if fullish { 35 } else { 55 },
+        };
         if r < ins_p {
             Op::new("ins", &[x])
         } else if r < 82 {
@@ -264,6 +291,12 @@ impl<A: HApi> Sut for HSut<A> {
     }
     fn refused(&self, op: &Op, out: &OpOut) -> bool {
         matches!(op.name, "ins" | "rem") && out.result == "false"
+    }
+    fn sessionable(&self, op: &Op) -> bool {
+        !matches!(op.name, "open" | "fill" | "iter")
+    }
+    fn session(&self, buf: &mut ABuf, ops: &[Op]) -> Option<Vec<String>> {
+        guarded(|| A::session(buf.bytes_mut(), ops)).ok()
     }
     fn apply(&self, buf: &mut ABuf, op: &Op) -> OpOut {
         match guarded(|| A::call(buf.bytes_mut(), op)) {
@@ -300,8 +333,33 @@ impl<A: HApi> Sut for HSut<A> {
         let Some((m, msize, mcap, _)) = self.api_contents(pre) else { return f };
         let Some((q, qsize, _, items)) = self.api_contents(post) else {
             f.push(Finding { property: prop, what: format!("after `{}` a read-only query panics", op.text()) });
+            f.push(Finding { property: "C04", what: format!("after `{}` the read-only view of the bytes panics on a query", op.text()) });
             return f;
         };
+        // C04: the mutable view of the same bytes reports the same contents
+        {
+            let mut copy = ABuf::new(post, 1, 0x22);
+            let viaw = guarded(|| {
+                let mut m2 = BTreeSet::new();
+                for v in &self.vals {
+                    if A::call(copy.bytes_mut(), &Op::new("has", &[*v])) == "true" {
+                        m2.insert(*v);
+                    }
+                }
+                (m2, A::call(copy.bytes_mut(), &Op::new("size", &[])))
+            });
+            match viaw {
+                Ok((m2, l2)) => {
+                    if m2 != q || l2 != qsize.to_string() {
+                        f.push(Finding { property: "C04", what: format!("after `{}` the mutable view reports {:?} (size {}) but the read-only view of the same bytes reports {:?} (size {})", op.text(), m2, l2, q, qsize) });
+                    }
+                    if copy.bytes() != post {
+                        f.push(Finding { property: "C04", what: format!("after `{}` re-opening the buffer mutably and querying it changed bytes", op.text()) });
+                    }
+                }
+                Err(_) => f.push(Finding { property: "C04", what: format!("after `{}` the mutable view of the bytes panics on a query", op.text()) }),
+            }
+        }
         if let Some(pm) = &post_m {
             let dm: BTreeSet<i128> = pm.iter().map(|x| x.2).filter(|v| self.vals.contains(v)).collect();
             if dm != q || pm.len() != qsize {
